@@ -360,12 +360,14 @@ Proof.
   rewrite Hff. destruct (findf l (files s)) as [r0|] eqn:Hold.
   - (* the row exists: the node existed *)
     set (state := match f with
-                  | FUndeclared | FPlanned => match fstt r0 with FBuilt => FBuilt | FOutdated => FOutdated | _ => f end
+                  | FUndeclared => match fstt r0 with FBuilt => FBuilt | FOutdated => FOutdated | FVolatile => FVolatile | _ => f end
+                  | FPlanned => match fstt r0 with FBuilt => FBuilt | FOutdated => FOutdated | _ => f end
                   | _ => f end).
-    assert (Hstate : state = f \/ ((f = FUndeclared \/ f = FPlanned) /\ state = fstt r0 /\ (state = FBuilt \/ state = FOutdated))).
-    { unfold state. destruct f; auto; destruct (fstt r0); auto 6. }
+    assert (Hstate : state = f \/ ((f = FUndeclared \/ f = FPlanned) /\ state = fstt r0 /\ (state = FBuilt \/ state = FOutdated))
+                     \/ (f = FUndeclared /\ state = FVolatile)).
+    { unfold state. destruct f; auto; destruct (fstt r0); auto 7. }
     replace (match f with
-             | FUndeclared => match fstt r0 with FBuilt => FBuilt | FOutdated => FOutdated | _ => f end
+             | FUndeclared => match fstt r0 with FBuilt => FBuilt | FOutdated => FOutdated | FVolatile => FVolatile | _ => f end
              | FPlanned => match fstt r0 with FBuilt => FBuilt | FOutdated => FOutdated | _ => f end
              | _ => f end) with state by (unfold state; destruct f; reflexivity).
     pose proof (findf_In _ _ _ Hold) as [Hr0in Hr0l].
@@ -391,25 +393,26 @@ Proof.
         + intros r Hr. apply filter_In in Hr. destruct Hr as [_ Hr]. apply negb_true_iff in Hr.
           apply str_eqb_neq in Hr. congruence.
       - intros Hsu n Hn. rewrite (np_k _ _ _ _ _ HP) in Hn. inversion Hn; subst n. cbn.
-        apply Hund. destruct Hstate as [Hs|[_ [Hs [Hs'|Hs']]]]; congruence.
+        apply Hund. destruct Hstate as [Hs|[[_ [Hs [Hs'|Hs']]]|[_ Hs]]]; congruence.
       - intros d sl Hd _ Hk. exfalso. rewrite (np_deps _ _ _ _ _ HP) in Hd. apply filter_In in Hd.
         destruct Hd as [_ Hd]. rewrite Hk, key_eqb_refl in Hd. discriminate.
       - intros Hs Hnh r Hr. rewrite Hff in Hr. inversion Hr; subst r.
-        destruct Hstate as [Hs1|[_ [Hs1 Hs2]]]; [rewrite Hs1, (Hst Hs) in Hnh; discriminate|].
+        destruct Hstate as [Hs1|[[_ [Hs1 Hs2]]|[_ Hs1]]]; [rewrite Hs1, (Hst Hs) in Hnh; discriminate| |rewrite Hs1 in Hnh; discriminate].
         pose proof (inv_fh _ HI r0 Hr0in) as Hok. unfold fh_ok_b in Hok. rewrite <- Hs1 in Hok.
         destruct Hs2 as [Hs2|Hs2]; rewrite Hs2 in Hok; destruct (fh r0); discriminate. }
     intros s2 [HI2 [HSO2 [Hsteps2 [Hsh2 [Hoth2 [Hnew2 _]]]]]].
     assert (Hne : find_file l s1 <> None). { rewrite Hff. discriminate. }
     specialize (HI2 Hne). specialize (Hnew2 Hne).
     assert (Hst2 : state = f \/ out_state state = true).
-    { destruct Hstate as [Hs|[_ [_ [Hs|Hs]]]]; [left; exact Hs | right; rewrite Hs; reflexivity | right; rewrite Hs; reflexivity]. }
+    { destruct Hstate as [Hs|[[_ [_ [Hs|Hs]]]|[_ Hs]]]; [left; exact Hs | right; rewrite Hs; reflexivity | right; rewrite Hs; reflexivity | right; rewrite Hs; reflexivity]. }
     (* the creator (if a step) is not SUCCEEDED whenever the row ends up PLANNED / OUTDATED / BUILT-kept *)
     assert (Hcq : creator_quiet creator f s -> forall x, creator = Some (KStep, x) ->
                   (state = FPlanned \/ state = FOutdated \/ state = FBuilt) -> sstate_of x s <> Some SSucceeded).
-    { intros Hq x Hx Hs. destruct Hstate as [Hsf|[[Hf|Hf] _]].
+    { intros Hq x Hx Hs. destruct Hstate as [Hsf|[[[Hf|Hf] _]|[_ Hv]]].
       - apply (Hq x Hx); intros He; rewrite He in Hsf; rewrite Hsf in Hs; destruct Hs as [Hs|[Hs|Hs]]; discriminate.
       - destruct (Hund Hf) as [Hn _]. congruence.
-      - apply (Hq x Hx); rewrite Hf; discriminate. }
+      - apply (Hq x Hx); rewrite Hf; discriminate.
+      - rewrite Hv in Hs. destruct Hs as [Hs|[Hs|Hs]]; discriminate. }
     assert (G12 : creator_quiet creator f s -> GG s s2).
     { intros Hq. constructor.
       - intros x. unfold sstate_of, find_step. rewrite Hsteps2, (np_steps _ _ _ _ _ HP). auto.
